@@ -567,8 +567,11 @@ def check(V, pid, tier, seed):
                             correspondence_differences=len(corr), violating_cases=len(new_viol), unmodelled_cases_skipped=unmodelled,
                             known_findings_seen=sorted(seen)),
               assumptions=trusted, wall_s=round(time.time() - t0, 2), violations=len(new_viol) + (1 if (corr or broken) and not new_viol else 0))
-    os.makedirs(os.path.join(V.VERIF, 'evidence'), exist_ok=True)
-    with open(os.path.join(V.VERIF, 'evidence', pid + '.json'), 'w') as f:
+    # the seeded-change runners (seedtest, fixtest, benigntest) redirect evidence so that the committed files
+    # always come from runs on the unchanged tree
+    evdir = os.environ.get('VERIF_EVIDENCE_DIR') or os.path.join(V.VERIF, 'evidence')
+    os.makedirs(evdir, exist_ok=True)
+    with open(os.path.join(evdir, pid + '.json'), 'w') as f:
         json.dump(ev, f, indent=1)
     if status == 0:
         print('OK property=%s tier=%s obligations=%d/%d cases=%d (%.1fs)' % (pid, tier, n_dis, n_obl, evaluations, time.time() - t0))
